@@ -32,6 +32,8 @@ type Client struct {
 	PostLogoutGlobs []string
 	// ServiceUser: the client may use client_credentials / jwt-bearer as itself.
 	ServiceUser bool
+	// DropIDTokenScopes: scopes RestrictAdditionalIdTokenScopes removes (nil = the scopes pass unchanged).
+	DropIDTokenScopes []string
 }
 
 func (c *Client) GetID() string                        { return c.ID }
@@ -48,7 +50,25 @@ func (c *Client) DevMode() bool                        { return c.Dev }
 func (c *Client) IDTokenUserinfoClaimsAssertion() bool { return c.UserinfoInIDTok }
 func (c *Client) ClockSkew() time.Duration             { return c.Skew }
 func (c *Client) RestrictAdditionalIdTokenScopes() func(scopes []string) []string {
-	return func(scopes []string) []string { return scopes }
+	if len(c.DropIDTokenScopes) == 0 {
+		return func(scopes []string) []string { return scopes }
+	}
+	drop := c.DropIDTokenScopes
+	return func(scopes []string) []string {
+		out := make([]string, 0, len(scopes))
+		for _, s := range scopes {
+			keep := true
+			for _, d := range drop {
+				if d == s {
+					keep = false
+				}
+			}
+			if keep {
+				out = append(out, s)
+			}
+		}
+		return out
+	}
 }
 func (c *Client) RestrictAdditionalAccessTokenScopes() func(scopes []string) []string {
 	return func(scopes []string) []string { return scopes }
